@@ -262,7 +262,7 @@ func (c *FnCtx) frameCoversWhole(env *Env, m Clause, l location) bool {
 		return false
 	}
 	id, ok := call.Fun.(*EIdent)
-	if !ok || (id.Name != "heap" && id.Name != "pkgheap") {
+	if !ok || (id.Name != "heap" && id.Name != "pkgheap" && id.Name != "allelems") {
 		return false
 	}
 	return c.frameCovers(env, m, l, l.a1) == "true"
@@ -310,6 +310,18 @@ func (c *FnCtx) frameCovers(env *Env, m Clause, l location, addr string) (res st
 				}
 				return "false"
 			case "ghost":
+				return "false"
+			case "allelems":
+				t := env.typeOf(typeArgText(call.Args[0]))
+				if isStruct(t) {
+					if strings.HasPrefix(l.arr, "|H "+typeName(t)+".") || (l.cellTy != nil && types.Identical(l.cellTy, t)) {
+						return "true"
+					}
+					return "false"
+				}
+				if l.arr == c.elemsHeap(t) {
+					return "true"
+				}
 				return "false"
 			case "pkgheap":
 				st, ok := call.Args[0].(*EStr)
